@@ -52,6 +52,8 @@ pub(crate) struct State {
     finalizing: Cell<bool>,
 
     dropping: Cell<bool>,
+    // true only while the collector is dropping a list of garbage objects (dropping is also set by Cc::drop)
+    dropping_list: Cell<bool>,
     allocated_bytes: Cell<usize>,
     executions_counter: Cell<usize>,
 
@@ -68,6 +70,7 @@ impl State {
             finalizing: Cell::new(false),
 
             dropping: Cell::new(false),
+            dropping_list: Cell::new(false),
             allocated_bytes: Cell::new(0),
             executions_counter: Cell::new(0),
 
@@ -133,6 +136,16 @@ impl State {
     }
 
     #[inline]
+    pub(crate) fn is_dropping_list(&self) -> bool {
+        self.dropping_list.get()
+    }
+
+    #[inline]
+    pub(crate) fn set_dropping_list(&self, value: bool) {
+        self.dropping_list.set(value);
+    }
+
+    #[inline]
     #[allow(dead_code)] // Currently used only inside #[cfg(debug_assertions)], but always keep it
     pub(crate) fn is_tracing(&self) -> bool {
         #[cfg(feature = "finalization")]
@@ -188,6 +201,9 @@ pub fn is_tracing() -> Result<bool, StateAccessError> {
 macro_rules! replace_state_field {
     (dropping, $value:expr, $state:ident) => {
         $crate::state::replace_state_field!(__internal is_dropping, set_dropping, bool, $value, $state)
+    };
+    (dropping_list, $value:expr, $state:ident) => {
+        $crate::state::replace_state_field!(__internal is_dropping_list, set_dropping_list, bool, $value, $state)
     };
     (finalizing, $value:expr, $state:ident) => {
         $crate::state::replace_state_field!(__internal is_finalizing, set_finalizing, bool, $value, $state)
